@@ -333,9 +333,15 @@ def classify(tree, op, rel):
                 sigs.append("ancestor-package-of-mover-reached-by-attribute")
     # relative from-imports naming the mover are invisible to _change_import_statements (its ImportContext has
     # no folder): aliased ones stay stale, doubled ones are half rewritten, deeper ones raise AttributeError
-    for s in m["imports"]:
+    # (the plain `from . import b` alone is handled: remove_old_imports + `import dest.b`)
+    for i, s in enumerate(m["imports"]):
         if s[0] == "F" and s[1] >= 1 and any(n == b for n, _ in s[3]) and not variant["relctx"]:
-            sigs.append("relative-from-import-names-mover")
+            aliased = any(n == b and a is not None for n, a in s[3])
+            deeper = s[1] >= 2 or bool(s[2])
+            doubled = any(j != i and t[0] == "F" and any((a or n) == b for n, a in t[3])
+                          for j, t in enumerate(m["imports"]))
+            if aliased or deeper or doubled:
+                sigs.append("relative-from-import-names-mover")
     if not dest and not variant["rootfrom"]:
         for s in m["imports"]:
             if s[0] == "F" and any(n == b and a is not None for n, a in s[3]):
